@@ -5,7 +5,8 @@ namespace Sst.Cmds
 open Sst Sst.Proto
 
 def parseCmp (s : String) : Option Cmp :=
-  if s = "bytewise" then some defaultCmp else if s = "reverse" then some reverseCmp else none
+  if s = "bytewise" then some defaultCmp else if s = "reverse" then some reverseCmp
+  else if s = "lenfirst" then some lenFirstCmp else none
 
 def parsePolicy (s : String) : Option FilterPolicy :=
   match s.splitOn ":" with
